@@ -123,6 +123,8 @@ def _run(scratch, log):
             rlimit = any("Resource limit" in x or "rlimit" in x for x in msgs)
             funcs[name] = {"status": "discharged" if ok else ("undecided" if rlimit else "failed"), "time_s": round(f.get("time-micros", 0) / 1e6, 3),
                            "reason": "; ".join(msgs)[:1500] if not ok else "", "detail": "" if ok else diag[-2500:], "mode": f.get("mode:", "")}
+    if not funcs:
+        return {"undecided_all": "verus could not process the extracted file (unsupported construct or type error in the changed code)", "functions": {}, "tail": diag[-3000:]}
     can = funcs.pop("canary_must_fail", None)
     if can is None or can["status"] != "failed":
         return {"undecided_all": "verus vacuity canary was not refuted: the run proves nothing", "functions": {}, "tail": diag[-2000:]}
